@@ -113,7 +113,9 @@ pub fn run_parallel(base: &Path, case: &Case) -> RunResult {
         strategy: case.strategy,
         replay: case.replay.clone(),
         strict_replay: case.strict,
-        max_steps: 4_000 + 600 * n_entries * case.cfg.threads as u64,
+        // generous: per-entry work plus three times the analytic bound on the
+        // termination phase (which grows with the cube of the worker count)
+        max_steps: 4_000 + 600 * n_entries * case.cfg.threads as u64 + 3 * liveness_bound(case.cfg.threads as u64),
         expected_len: 30 + 8 * n_entries,
         readdir_permute: true,
         readdir_fault: case.readdir_fault,
